@@ -162,6 +162,16 @@ theorem csrf_at_most_once (c : Cfg) (t : Str) :
         simp only [hz]
         simpa using this
 
+/-- non-vacuity of `csrf_at_most_once`: a prune-free history in which the bound is attained
+(first presentation accepted, the second one refused as a re-use) -/
+example :
+    let c : Cfg := { mac := fun m => '#' :: m, strictOrigin := false }
+    let t : Str := issue c "streams".toList "K".toList [] "12345678".toList
+    let evs : List Ev := [.check "streams".toList (some "K".toList) [] t,
+                          .check "streams".toList (some "K".toList) [] t]
+    (∀ e ∈ evs, e.isPrune = false) ∧ acceptedCount t (run c St.empty evs) = 1 := by
+  decide
+
 /-- the first failing presentation consumes the token: after a `badSignature` the same
 string is refused as a re-use (this is the order the code uses: record, then verify) -/
 theorem csrf_failed_check_consumes (c : Cfg) (st : St) (svc svc' : Str) (ck ck' : Option Str)
